@@ -19,6 +19,7 @@ CFG = {
     'C20': dict(theorems=['Dlis.C20.rejected_call_is_identity', 'Dlis.C20.rejected_leaves_objects',
                           'Dlis.C20.later_copy_numbers_unaffected', 'Dlis.C20.history_without_rejected_calls',
                           'Dlis.C20.later_files_unaffected', 'Dlis.C20.refused_check_leaves_assignment',
+                          'Dlis.C20.refused_setup_leaves_assignment',
                           'Dlis.C20.dataset_names_unaffected',
                           'Dlis.C20.dataset_name_fresh', 'Dlis.run_invariants']),
 }
@@ -120,6 +121,8 @@ def run_prop(prop, tier):
             dataset_name_stream(chk, model, bres, tier)
             from harness import defaults as _defaults
             _defaults.sequence_stream(chk, model, bres, rng('C20', 'dimension-sequences'), 150 if tier == 'quick' else 1500)
+            from harness.props import c13 as _c13
+            _c13.frame_sequences(chk, model, bres, rng('C20', 'frame-sequences'), 100 if tier == 'quick' else 1000)
         if chk.disagreements and not chk.failures and bres.ok:
             # failing-input search: the correspondence is broken; look for a concrete history on which the
             # property itself fails, over a much larger set of histories (oracles only)
